@@ -265,6 +265,7 @@ const (
 	StrayClose = 2 // a stray ']' or '}' between values
 	Truncated  = 3 // a value cut off by end of input
 	ReadErr    = 4 // the reader fails with an I/O error at this point
+	ReadErrEOF = 5 // the reader fails with an I/O error that WRAPS io.EOF (errors.Is(err, io.EOF) holds, err != io.EOF)
 )
 
 // Fault is a DocStream item that is not a complete JSON value.
@@ -322,12 +323,28 @@ func (ioError) Error() string { return "injected read error" }
 
 var ErrInjected error = ioError{}
 
+type wrappedEOF struct{}
+
+func (wrappedEOF) Error() string { return "injected read error: unexpected end of the connection: EOF" }
+func (wrappedEOF) Unwrap() error { return io.EOF }
+
+// ErrWrappedEOF is a failure of the reader, not the end of the input.
+var ErrWrappedEOF error = wrappedEOF{}
+
 func (d *DocStream) isReadErr(i int) bool {
 	if i >= len(d.Items) {
 		return false
 	}
 	f, ok := d.Items[i].(Fault)
-	return ok && f.Kind == ReadErr
+	return ok && (f.Kind == ReadErr || f.Kind == ReadErrEOF)
+}
+
+// errAt is the error an injected read failure at item i reports.
+func (d *DocStream) errAt(i int) error {
+	if f, ok := d.Items[i].(Fault); ok && f.Kind == ReadErrEOF {
+		return ErrWrappedEOF
+	}
+	return ErrInjected
 }
 
 func (d *DocStream) isValue(i int) bool {
@@ -367,7 +384,7 @@ func (d *DocStream) plan() []chunk {
 			switch {
 			case d.isReadErr(i):
 				flush()
-				add(chunk{Err: ErrInjected})
+				add(chunk{Err: d.errAt(i)})
 			case i > 0 && d.isValue(i) && !d.isReadErr(i-1):
 				cur = append(cur, part{partHead, i})
 				flush()
@@ -381,9 +398,9 @@ func (d *DocStream) plan() []chunk {
 		for i := 0; i < n; i++ {
 			if d.isReadErr(i) {
 				if d.Mode == 3 && len(out) > 0 && out[len(out)-1].Err == nil && len(out[len(out)-1].Parts) > 0 {
-					out[len(out)-1].Err = ErrInjected
+					out[len(out)-1].Err = d.errAt(i)
 				} else {
-					add(chunk{Err: ErrInjected})
+					add(chunk{Err: d.errAt(i)})
 				}
 				continue
 			}
